@@ -1,8 +1,9 @@
 /-
   Model.Wire — transaction / block wire format of lib/btc (tx.go, funcs.go, block.go). Core-only,
   self-contained (imports GocoinV.Base.* only). Mirrors the code AS FIXED by the /repo commits
-  5f0d89be "fix: wire decoders refuse non-canonical CompactSize, …", 39cf1587 "fix: NewBlock returns an error …"
-  and b2c711ed "fix: NewTx never reads past the length of its buffer".
+  5f0d89be "fix: wire decoders refuse non-canonical CompactSize, …", 39cf1587 "fix: NewBlock returns an error …",
+  b2c711ed "fix: NewTx never reads past the length of its buffer" and "fix: NewTx refuses a transaction without
+  inputs that has outputs (unknown optional data)".
 
   ## Public API (stable; C02 / C04 / C18 import this file)
 
@@ -237,8 +238,12 @@ def readMarker (b : Bytes) : Option (Bool × Bytes) :=
 /-- all witness stacks empty (`haswit` stayed false) -/
 def noWitness (w : List (List Bytes)) : Bool := w.all (·.isEmpty)
 
-/-- `btc.NewTx`, parametrised by the length reader and by whether a superfluous witness is refused. -/
-def decodeTxWith (rd : Bytes → Option (Nat × Bytes)) (refuseEmptyWit : Bool) (b : Bytes) : Option Decoded :=
+/-- `btc.NewTx`, parametrised by the length reader and by `strict`: whether the two refusals of Bitcoin's
+    deserialiser that are not length checks are made — a superfluous witness record (witness flag, all stacks
+    empty) and "unknown optional data" (an empty input vector in the legacy layout followed by a non-zero
+    byte: that byte is the flags field of the extended format, and only 01 is defined).
+    `strict = false` is the shape `btc.TxSize` walks (it has neither rule) and, with `vlenLax`, the pre-fix NewTx. -/
+def decodeTxWith (rd : Bytes → Option (Nat × Bytes)) (strict : Bool) (b : Bytes) : Option Decoded :=
   match readN 4 b with
   | none => none
   | some (ver, b1) =>
@@ -254,6 +259,7 @@ def decodeTxWith (rd : Bytes → Option (Nat × Bytes)) (refuseEmptyWit : Bool) 
   match rd b4 with
   | none => none
   | some (nout, b5) =>
+  if strict && (!segwit && nin == 0 && nout != 0) then none else
   match decodeN (decodeTxOutWith rd) nout b5 with
   | none => none
   | some (outs, b6) =>
@@ -262,7 +268,7 @@ def decodeTxWith (rd : Bytes → Option (Nat × Bytes)) (refuseEmptyWit : Bool) 
     match decodeN (decodeStackWith rd) ins.length b6 with
     | none => none
     | some (wit, b7) =>
-    if refuseEmptyWit && noWitness wit then none else
+    if strict && noWitness wit then none else
     match readN 4 b7 with
     | none => none
     | some (lt, rest) =>
@@ -353,13 +359,15 @@ def TxIn.WF (i : TxIn) : Prop :=
   i.prevHash.length = 32 ∧ i.prevIdx < 2^32 ∧ i.sequence < 2^32 ∧ i.scriptSig.length < 2^64
 def TxOut.WF (o : TxOut) : Prop := o.value < 2^64 ∧ o.pkScript.length < 2^64
 
-/-- What `encodeTx` needs to be decodable again: field ranges; at least one input (otherwise the count
-    byte `00` is read as the segwit marker); a witness has one stack per input and at least one
-    non-empty stack (otherwise it is the "superfluous witness record" the decoder refuses). -/
+/-- Exactly the transactions `btc.NewTx` can return (`decode_wf`) and whose serialisation it reads back
+    (`encode_decode`): field ranges; a transaction without inputs has no outputs either (otherwise the byte
+    after the input count `00` is read as the flags of the extended format: segwit marker or "unknown
+    optional data"); a witness has one stack per input and at least one non-empty stack (otherwise it is
+    the "superfluous witness record" the decoder refuses). -/
 structure Tx.WF (t : Tx) : Prop where
   version : t.version < 2^32
   lockTime : t.lockTime < 2^32
-  ins_ne : t.ins ≠ []
+  ins_ne : t.ins = [] → t.outs = []
   ins : ∀ i ∈ t.ins, i.WF
   outs : ∀ o ∈ t.outs, o.WF
   nins : t.ins.length < 2^64
